@@ -533,3 +533,80 @@ Proof.
   assert (Hn2 : 0 <= n2) by nia.
   rewrite Z.quot_div_nonneg by lia. apply Z.div_le_lower_bound; lia.
 Qed.
+
+(* ---- relative accuracy ---- *)
+Lemma round_he_half n d' : 0 < d' -> 0 <= n -> 2 * Z.abs (round_he n d' * d' - n) <= d'.
+Proof.
+  intros Hd Hn. unfold round_he.
+  pose proof (Z.div_mod n d' ltac:(lia)) as Hdm. pose proof (Z.mod_pos_bound n d' Hd) as Hr.
+  set (q := n / d') in *. set (r := n mod d') in *.
+  destruct (2 * r <? d') eqn:E1; [nia|]. destruct (d' <? 2 * r) eqn:E2; [nia|].
+  destruct (Z.even q); nia.
+Qed.
+
+(* relative accuracy of rounding a positive rational: |rnd x - x| <= x / 2^p *)
+Lemma rnd_pos_rel p a d : 2 <= p -> 0 < a -> 0 < d ->
+  Z.abs (fst (rnd_pos p a d) * d - a * snd (rnd_pos p a d)) * 2 ^ p <= a * snd (rnd_pos p a d).
+Proof.
+  intros Hp Ha Hd. rewrite rnd_pos_val. unfold bval. cbn [fst snd].
+  set (s := norm_s p a d). set (n := a * pu s). set (d' := d * pv s).
+  destruct (nb p a d Hp Ha Hd) as (L & U & Pd & Pn). fold s n d' in L, U, Pd, Pn.
+  pose proof (round_he_half n d' Pd ltac:(lia)) as Hh. set (m := round_he n d') in *.
+  replace (m * pv s * d - a * pu s) with (m * d' - n) by (subst n d'; ring).
+  pose proof (pow_split p 0 0 Hp) as Ep. pose proof (pow2_gt0 (p - 1) ltac:(lia)).
+  fold n. nia.
+Qed.
+
+(* C13: one backoff step Duration(float32(last) * factor) equals last * factor up to float32 rounding:
+   |step - last*factor| <= last*factor / 2^22 + 1 ns, for every positive last delay and positive factor *)
+Theorem backoff_step_accuracy last fn fd :
+  0 < last -> 0 < fn -> 0 < fd ->
+  let step := to_int (fmul 24 (of_int 24 last) (fn, fd)) in
+  2 ^ 22 * Z.abs (step * fd - last * fn) <= last * fn + 2 ^ 22 * fd.
+Proof.
+  intros Hl Hfn Hfd. cbv zeta. unfold fmul, of_int, rnd. cbn [fst snd].
+  destruct (last =? 0) eqn:E0; [lia|]. destruct (0 <? last) eqn:E1; [|lia].
+  pose proof (rnd_pos_rel 24 last 1 ltac:(lia) Hl ltac:(lia)) as R1.
+  pose proof (rnd_pos_positive 24 last 1 ltac:(lia) Hl ltac:(lia)) as P1.
+  pose proof (rnd_pos_wf 24 last 1) as W1.
+  destruct (rnd_pos 24 last 1) as [ln ld]. unfold wf in W1. cbn [fst snd] in *.
+  assert (Hx : 0 < ln * fn) by nia. assert (Hxd : 0 < ld * fd) by nia.
+  destruct (ln * fn =? 0) eqn:E2; [lia|]. destruct (0 <? ln * fn) eqn:E3; [|lia].
+  pose proof (rnd_pos_rel 24 (ln * fn) (ld * fd) ltac:(lia) Hx Hxd) as R2.
+  pose proof (rnd_pos_positive 24 (ln * fn) (ld * fd) ltac:(lia) Hx Hxd) as P2.
+  pose proof (rnd_pos_wf 24 (ln * fn) (ld * fd)) as W2.
+  destruct (rnd_pos 24 (ln * fn) (ld * fd)) as [pn pd]. unfold wf in W2. cbn [fst snd] in *.
+  unfold to_int. cbn [fst snd]. rewrite Z.quot_div_nonneg by lia.
+  set (R := pn / pd).
+  assert (HR : R * pd <= pn < (R + 1) * pd).
+  { subst R. pose proof (Z.div_mod pn pd ltac:(lia)). pose proof (Z.mod_pos_bound pn pd W2). nia. }
+  (* everything over the common denominator pd * ld *)
+  set (A := last * ld) in *. replace (ln * 1 - last * ld) with (ln - A) in R1 by (subst A; ring).
+  set (D := A * fn * pd). set (B := ln * fn * pd). set (C := pn * ld * fd).
+  assert (HD : 0 < D) by (subst D A; nia).
+  assert (K1 : 2 ^ 24 * Z.abs (B - D) <= D).
+  { subst B D. replace (ln * fn * pd - A * fn * pd) with ((ln - A) * (fn * pd)) by ring.
+    rewrite Z.abs_mul. rewrite (Z.abs_eq (fn * pd)) by nia.
+    assert (Z.abs (ln - A) * 2 ^ 24 * (fn * pd) <= A * (fn * pd)) by (apply Z.mul_le_mono_nonneg_r; [nia|lia]). nia. }
+  assert (K2 : 2 ^ 24 * Z.abs (C - B) <= B).
+  { subst C B. replace (pn * ld * fd - ln * fn * pd) with (pn * (ld * fd) - ln * fn * pd) by ring. lia. }
+  assert (HB : 0 < B) by (subst B; nia).
+  assert (K3 : 2 ^ 22 * Z.abs (C - D) <= D).
+  { assert (T : Z.abs (C - D) <= Z.abs (C - B) + Z.abs (B - D)) by (replace (C - D) with ((C - B) + (B - D)) by ring; apply Z.abs_triangle).
+    assert (HBD : 2 ^ 24 * B <= 2 ^ 24 * D + D) by lia.
+    change (2 ^ 24) with 16777216 in *. change (2 ^ 22) with 4194304. lia. }
+  (* the truncation loses less than one unit *)
+  set (T := R * fd * (pd * ld)). 
+  assert (HT : C - pd * ld * fd < T <= C).
+  { subst T C. split.
+    - assert ((R + 1) * pd * (ld * fd) > pn * (ld * fd)) by (apply Z.lt_gt, Z.mul_lt_mono_pos_r; lia). nia.
+    - assert (R * pd * (ld * fd) <= pn * (ld * fd)) by (apply Z.mul_le_mono_nonneg_r; lia). nia. }
+  assert (K4 : 2 ^ 22 * Z.abs (T - D) <= D + 2 ^ 22 * (pd * ld * fd)).
+  { assert (Z.abs (T - D) <= Z.abs (C - D) + pd * ld * fd) by lia. change (2 ^ 22) with 4194304 in *. lia. }
+  (* cancel the common denominator *)
+  assert (E : T - D = (R * fd - last * fn) * (pd * ld)) by (subst T D A; ring).
+  rewrite E in K4. rewrite Z.abs_mul in K4. rewrite (Z.abs_eq (pd * ld)) in K4 by nia.
+  assert (K5 : 2 ^ 22 * Z.abs (R * fd - last * fn) * (pd * ld) <= (last * fn + 2 ^ 22 * fd) * (pd * ld)).
+  { subst D A. replace ((last * fn + 2 ^ 22 * fd) * (pd * ld)) with (last * ld * fn * pd + 2 ^ 22 * (pd * ld * fd)) by ring. lia. }
+  apply Z.mul_le_mono_pos_r in K5; [exact K5|nia].
+Qed.
